@@ -46,7 +46,7 @@ def plan(tier, seed):
 
 # =================================================================== irq_return
 
-def build_program_case(rng, n_blocks=None, allow=None, main_modes=('usr', 'sys', 'svc'), extra_sys=None, rec_data=False):
+def build_program_case(rng, n_blocks=None, allow=None, main_modes=('usr', 'sys', 'svc'), extra_sys=None, rec_data=False, cps_returns=False):
     cfg = {'arch_version': 7, 'have_security_ext': rng.random() < 0.5, 'have_virt_ext': False, 'have_lpae': False,
            'memory_system_architecture': 'PMSA', 'number_of_mpu_regions': 12}
     thumb = rng.getrandbits(1)
@@ -56,6 +56,13 @@ def build_program_case(rng, n_blocks=None, allow=None, main_modes=('usr', 'sys',
     rets['mon_irq'] = rng.choice((P.RETURNS_THUMB if te else P.RETURNS_ARM)['irq'])
     rets['mon_fiq'] = rng.choice((P.RETURNS_THUMB if te else P.RETURNS_ARM)['fiq'])
     rets['mon_smc'] = rng.choice((P.RETURNS_THUMB if te else P.RETURNS_ARM)['svc'])
+    if cps_returns and rng.random() < 0.2:
+        # IRQ/FIQ handlers that leave their own mode with CPS and return with RFE from System (main in Supervisor mode) or Supervisor mode
+        for k in ('irq', 'fiq'):
+            if rng.random() < 0.7:
+                rets[k] = 'srs_cps_sys_rfe' if mode == 'svc' else 'srs_cps_svc_rfe'
+                if mode != 'svc' and rets['svc'] not in ('movs', 'subs', 'ldm^', 'srs_rfe', 'it_subs'):
+                    rets['svc'] = 'srs_rfe'          # the SVC handler now shares its (descending) stack with an interrupt handler: no ascending frames
     low, hinfo = P.build_low(te, rets)
     allow = allow or ('alu', 'mem', 'stack', 'loop', 'cond', 'svc', 'udf', 'it', 'multi', 'smc')
     mg = P.MainGen(rng, thumb, mode != 'usr', allow=allow, sec=cfg['have_security_ext'])
@@ -96,7 +103,7 @@ def fault_free_ticks(core, meta, cap=3000):
 
 def gen_irq_return(rng):
     for _ in range(20):
-        core, meta = build_program_case(rng)
+        core, meta = build_program_case(rng, cps_returns=True)
         n = fault_free_ticks(core, meta)
         if n is not None:
             break
@@ -157,12 +164,22 @@ class ReturnChecker:
     def on_tick(self, b, rec):
         if rec['what'] != 'step' or not self.stack:
             return
-        kind, saved, resume, hmode, in_it = self.stack[-1]
+        kind, saved, resume, hmode0, in_it = self.stack[-1]
+        hmode = hmode0
         pre_mode, post_mode = rec['pre'][1] & 0x1F, rec['post'][1] & 0x1F
         arm = b.cores[0].arm
         name = type(arm.executed_opcode).__name__
         entered = [1 for t, k in self.mon.taken if t == rec['tick']]
-        if pre_mode == hmode and post_mode != hmode and not entered:
+        hk = ('mon_' + kind) if hmode0 == 0x16 and ('mon_' + kind) in self.meta['handlers'] else kind
+        ha = self.meta['handlers'].get(hk)
+        ppc = rec['post'][0][M.RNAMES.index('PC')]
+        if ha:
+            # the handler's code was left without a new exception entry: this is the exception return (it may return to the mode it
+            # runs in, and it may have changed mode itself with CPS on the way)
+            returned = ha[0] <= rec['pre_pc'] < ha[0] + ha[1] and not (ha[0] <= ppc < ha[0] + ha[1]) and not entered
+        else:
+            returned = pre_mode == hmode and post_mode != hmode and not entered
+        if returned:
             # the handler's mode was left without a new exception entry: this is the exception return (recognised by what it
             # does, not by the opcode class name, so renaming classes cannot upset the check)
             self.stack.pop()
